@@ -741,6 +741,23 @@ func (e *Env) evalCall(n *ECall) SVal {
 			return e.errf("allof: no direct field %s in %s", sel.Name, tyname)
 		}
 		return SVal{T: e.heap(e.cur, c.fieldArrayName(t, path[0]))}
+	case "allelems", "arrref":
+		// allelems(s): the backing arrays of every slice with the element type of s (to state that a loop or call writes
+		// one backing array only: allelems(a) == store(old(allelems(a)), arrref(a), select(allelems(a), arrref(a))));
+		// arrref(s): the reference of the backing array of s
+		need(1)
+		sv := arg(0)
+		if sv.Type == nil {
+			return e.errf("%s of untyped value", n.Fn)
+		}
+		su, ok := sv.Type.Underlying().(*types.Slice)
+		if !ok {
+			return e.errf("%s expects a slice", n.Fn)
+		}
+		if n.Fn == "arrref" {
+			return SVal{T: mk(SInt, "(s.arr "+sv.T.S+")")}
+		}
+		return SVal{T: e.heap(e.cur, c.elemNameT(su.Elem()))}
 	case "allocated":
 		need(1)
 		a := arg(0).T
